@@ -57,6 +57,12 @@ type exCase struct {
 	Final      string    `json:"final,omitempty"` // terminal status sent after the script: full | failed | none
 	Forge      bool      `json:"forge,omitempty"` // items without genuine block carry a block with forged bytes under the claimed CID
 	Mode       string    `json:"mode,omitempty"`  // "" = real requestor + real responder; "rawreq" = raw requestor, real responder
+	// C06: pause and resume
+	PauseSide string `json:"pauseSide,omitempty"` // "req" | "resp"
+	PauseVia  string `json:"pauseVia,omitempty"`  // "hook" (block hook action) | "api" (Pause call made while the block hook runs)
+	PauseAt   int    `json:"pauseAt,omitempty"`   // the block hook call (1-based) at which the pause is requested
+	Resume    string `json:"resume,omitempty"`    // "quiet": when the network has been quiet; "now": as soon as the pause is visible;
+	//                                                "held": responder messages after the first are held back until the new request is on the wire
 }
 
 type advItem struct {
@@ -92,6 +98,9 @@ type exObs struct {
 	ReqLoads      int        `json:"reqLoads"`  // storage reads on the requestor
 	RespLoads     int        `json:"respLoads"` // storage reads on the responder
 	Note          string     `json:"note,omitempty"`
+	PauseTook     bool       `json:"pauseTook"`         // the request / response was seen in state paused
+	WhilePaused   int        `json:"blocksWhilePaused"` // block-carrying responder messages put on the wire while the response was paused and the wire had settled
+	NewReqs       int        `json:"newReqs"`           // "new" requests the requestor put on the wire
 }
 
 func (c *exCase) tree() dagreal.Tree {
@@ -266,6 +275,234 @@ func runExCase(c exCase, timeout time.Duration) (obs exObs, err error) {
 	}
 	reqCtx, reqCancel := context.WithCancel(ctx)
 	defer reqCancel()
+	// ---- C06: pause at the PauseAt-th block hook call, resume per c.Resume
+	var pmu sync.Mutex
+	pauseTook, whilePaused := false, 0
+	if c.PauseSide != "" && !c.Adv {
+		var reqID graphsync.RequestID
+		haveID := make(chan struct{})
+		var idOnce sync.Once
+		requested := make(chan struct{})
+		var reqOnce sync.Once
+		hookCalls := 0
+		newReqsOnWire := func() int {
+			n := 0
+			for _, s := range net.Log() {
+				if s.From == pR {
+					for _, r := range s.Msg.Requests() {
+						if r.Type() == graphsync.RequestTypeNew {
+							n++
+						}
+					}
+				}
+			}
+			return n
+		}
+		blockMsgs := func() int {
+			n := 0
+			for _, s := range net.Log() {
+				if s.From == pS && len(s.Msg.Blocks()) > 0 {
+					n++
+				}
+			}
+			return n
+		}
+		quiet := func(d time.Duration) {
+			last, since := -1, time.Now()
+			for start := time.Now(); time.Since(start) < 2*time.Second; {
+				n := len(net.Log())
+				if n != last || net.InFlight() > 0 {
+					last, since = n, time.Now()
+				} else if time.Since(since) > d {
+					return
+				}
+				time.Sleep(time.Millisecond)
+			}
+		}
+		if c.Resume == "held" {
+			// everything the responder sends after its first message waits until the requestor's second "new" request is out
+			fromS := 0
+			released := make(chan struct{})
+			go func() {
+				defer close(released)
+				for start := time.Now(); time.Since(start) < 400*time.Millisecond; time.Sleep(time.Millisecond) {
+					if newReqsOnWire() >= 2 {
+						return
+					}
+					select {
+					case <-ctx.Done():
+						return
+					default:
+					}
+				}
+			}()
+			net.SetPolicy(func(from, to peer.ID, n int, m gsmsg.GraphSyncMessage) verifnet.Outcome {
+				if from == pS {
+					pmu.Lock()
+					fromS++
+					k := fromS
+					pmu.Unlock()
+					if k > 1 {
+						select {
+						case <-released:
+						case <-ctx.Done():
+						}
+					}
+				}
+				return verifnet.Deliver
+			})
+		}
+		doPause := func(byHook func()) {
+			pmu.Lock()
+			hookCalls++
+			k := hookCalls
+			pmu.Unlock()
+			if k != c.PauseAt {
+				return
+			}
+			reqOnce.Do(func() { close(requested) })
+			if c.PauseVia == "hook" {
+				byHook()
+			} else {
+				go func() {
+					<-haveID
+					cctx, cc := context.WithTimeout(ctx, 2*time.Second)
+					defer cc()
+					if c.PauseSide == "req" {
+						_ = gsR.Pause(cctx, reqID)
+					} else {
+						_ = gsS.Pause(cctx, reqID)
+					}
+				}()
+			}
+		}
+		if c.PauseSide == "both" {
+			// the responder pauses by hook at block PauseAt; when that is visible and the network is quiet the requestor
+			// pauses through the API (from outside its executor); then both resume in the order given by c.Resume, and a
+			// requestor pause that takes effect later (at its next block) is resumed once the network is quiet again
+			gsS.RegisterOutgoingBlockHook(func(p peer.ID, r graphsync.RequestData, b graphsync.BlockData, ha graphsync.OutgoingBlockHookActions) {
+				idOnce.Do(func() { reqID = r.ID(); close(haveID) })
+				pmu.Lock()
+				hookCalls++
+				k := hookCalls
+				pmu.Unlock()
+				if k == c.PauseAt {
+					ha.PauseResponse()
+					reqOnce.Do(func() { close(requested) })
+				}
+			})
+			statesOf := func(side string) graphsync.RequestState {
+				if side == "req" {
+					return gsR.(*gsimpl.GraphSync).PeerState(pS).OutgoingState.RequestStates[reqID]
+				}
+				return gsS.(*gsimpl.GraphSync).PeerState(pR).IncomingState.RequestStates[reqID]
+			}
+			call := func(f func(context.Context, graphsync.RequestID) error) {
+				cctx, cc := context.WithTimeout(ctx, 2*time.Second)
+				defer cc()
+				_ = f(cctx, reqID)
+			}
+			go func() {
+				select {
+				case <-requested:
+				case <-ctx.Done():
+					return
+				}
+				for statesOf("resp") != graphsync.Paused {
+					select {
+					case <-ctx.Done():
+						return
+					case <-time.After(200 * time.Microsecond):
+					}
+				}
+				pmu.Lock()
+				pauseTook = true
+				pmu.Unlock()
+				quiet(25 * time.Millisecond)
+				call(gsR.Pause)
+				time.Sleep(10 * time.Millisecond)
+				unR := func(c2 context.Context, id graphsync.RequestID) error { return gsR.Unpause(c2, id) }
+				unS := func(c2 context.Context, id graphsync.RequestID) error { return gsS.Unpause(c2, id) }
+				if c.Resume == "reqfirst" {
+					call(unR)
+					call(unS)
+				} else {
+					call(unS)
+					call(unR)
+				}
+				for {
+					select {
+					case <-ctx.Done():
+						return
+					case <-time.After(2 * time.Millisecond):
+					}
+					if statesOf("req") == graphsync.Paused {
+						quiet(25 * time.Millisecond)
+						call(unR)
+					}
+				}
+			}()
+		} else if c.PauseSide == "req" {
+			gsR.RegisterIncomingBlockHook(func(p peer.ID, r graphsync.ResponseData, b graphsync.BlockData, ha graphsync.IncomingBlockHookActions) {
+				idOnce.Do(func() { reqID = r.RequestID(); close(haveID) })
+				doPause(ha.PauseRequest)
+			})
+		} else {
+			gsS.RegisterOutgoingBlockHook(func(p peer.ID, r graphsync.RequestData, b graphsync.BlockData, ha graphsync.OutgoingBlockHookActions) {
+				idOnce.Do(func() { reqID = r.ID(); close(haveID) })
+				doPause(ha.PauseResponse)
+			})
+		}
+		isPaused := func() bool {
+			var st map[graphsync.RequestID]graphsync.RequestState
+			if c.PauseSide == "req" {
+				st = gsR.(*gsimpl.GraphSync).PeerState(pS).OutgoingState.RequestStates
+			} else {
+				st = gsS.(*gsimpl.GraphSync).PeerState(pR).IncomingState.RequestStates
+			}
+			return st[reqID] == graphsync.Paused
+		}
+		go func() {
+			if c.PauseSide == "both" {
+				return
+			}
+			select {
+			case <-requested:
+			case <-ctx.Done():
+				return
+			}
+			<-haveID
+			// an API pause "may take 1 or more blocks to process", and the exchange may end before it does
+			for !isPaused() {
+				select {
+				case <-ctx.Done():
+					return
+				case <-time.After(200 * time.Microsecond):
+				}
+			}
+			pmu.Lock()
+			pauseTook = true
+			pmu.Unlock()
+			switch c.Resume {
+			case "quiet":
+				quiet(25 * time.Millisecond)
+				if c.PauseSide == "resp" {
+					b1 := blockMsgs()
+					time.Sleep(40 * time.Millisecond)
+					pmu.Lock()
+					whilePaused = blockMsgs() - b1
+					pmu.Unlock()
+				}
+			}
+			cctx, cc := context.WithTimeout(ctx, 2*time.Second)
+			defer cc()
+			if c.PauseSide == "req" {
+				_ = gsR.Unpause(cctx, reqID)
+			} else {
+				_ = gsS.Unpause(cctx, reqID)
+			}
+		}()
+	}
 	progress, errs := gsR.Request(reqCtx, pS, cidlink.Link{Cid: d.Root}, sel, exts...)
 	deadline := time.After(timeout)
 	if c.Adv && (c.Final == "none") {
@@ -418,6 +655,18 @@ func runExCase(c exCase, timeout time.Duration) (obs exObs, err error) {
 						v, _ := donotsendfirstblocks.DecodeDoNotSendFirstBlocks(n)
 						obs.ReqSkip = int(v)
 					}
+				}
+			}
+		}
+	}
+	pmu.Lock()
+	obs.PauseTook, obs.WhilePaused = pauseTook, whilePaused
+	pmu.Unlock()
+	for _, s := range log {
+		if s.From == pR {
+			for _, r := range s.Msg.Requests() {
+				if r.Type() == graphsync.RequestTypeNew {
+					obs.NewReqs++
 				}
 			}
 		}
